@@ -164,6 +164,13 @@ COMPACT_LOOPS = {
     "count": 3,
 }
 
+def use_pu_loop(core):
+    """the inner search `while (pu_index < num_core_pus) { use_pu = pu_in_process_mask(.., CORE, pu_index); ++pu_index; if (use_pu) break; }`.
+    The invariant does not say HOW the loop stops on a hit (break, or `!use_pu &&` in the condition): it says what a hit means -- the PU
+    just tested, (CORE, pu_index - 1), passed pu_in_process_mask -- stated for the victim pair."""
+    return ("__CPROVER_assigns(pu_index, use_pu, g_invalid_pair)\n"
+            "__CPROVER_loop_invariant(!use_pu || (pu_index >= 1 && (!(use_process_mask && (%s) == g_vc && pu_index - 1 == g_vp) || g_v_inmask)))" % core)
+
 # ---- scatter: next_pu_index ----
 NPI_INV = "next_pu_index.size == num_cores && VV_WF(next_pu_index)"
 SCATTER_LOOPS = {
@@ -171,7 +178,7 @@ SCATTER_LOOPS = {
        "__CPROVER_loop_invariant(num_thread <= num_threads && %s && %s && %s && %s)" % (K_INV, E_INV, C_INV, NPI_INV),
     2: "__CPROVER_assigns(num_core, num_thread, next_pu_index, OUT_FRAME, ERR_FRAME)\n"
        "__CPROVER_loop_invariant(num_core <= num_cores && num_thread < num_threads && %s && %s && %s && %s)" % (K_INV, E_INV, C_INV, NPI_INV),
-    3: "__CPROVER_assigns(pu_index, use_pu, g_invalid_pair)\n__CPROVER_loop_invariant(!use_pu)",
+    3: use_pu_loop("num_core"),
     "count": 3,
 }
 # ---- balanced: next_pu_index, num_pus_cores, pu_indexes ----
@@ -195,7 +202,7 @@ BALANCED_LOOPS = {
        "__CPROVER_loop_invariant(num_thread <= num_threads && %s && %s)" % (BAL_VECS, BAL_P1, pi_inv("0")),
     2: "__CPROVER_assigns(num_core, num_thread, %s, g_invalid_pair)\n"
        "__CPROVER_loop_invariant(num_core <= num_cores && num_thread < num_threads && %s && %s)" % (BAL_VECS, BAL_P1, pi_inv("0")),
-    3: "__CPROVER_assigns(pu_index, use_pu, g_invalid_pair)\n__CPROVER_loop_invariant(!use_pu)",
+    3: use_pu_loop("num_core"),
     4: "__CPROVER_assigns(num_core, num_thread, num_pus_cores, pu_indexes, OUT_FRAME, PI_FRAME, ERR_FRAME)\n"
        "__CPROVER_loop_invariant(num_core <= num_cores && %s && %s && %s && %s && %s)" % (BAL_P2_OUTER, pi_inv("0"), K_INV, E_INV, C_INV),
     5: "__CPROVER_assigns(num_pu, num_thread, num_pus_cores, pu_indexes, OUT_FRAME, PI_FRAME, ERR_FRAME)\n"
@@ -226,7 +233,7 @@ NUMA_LOOPS_LOCAL = {
        "__CPROVER_loop_invariant(n < num_sockets && %s && %s && %s)" % (SZ3, NCS_AT, PIB),
     8: "__CPROVER_assigns(num_core, num_thread_socket, num_threads_socket, num_cores_socket, next_pu_index, num_pus_cores, pu_indexes, g_invalid_pair)\n"
        "__CPROVER_loop_invariant(n < num_sockets && num_core <= NCORES && %s && %s && %s)" % (SZ3, NCS_AT, PIB),
-    9: "__CPROVER_assigns(pu_index, use_pu, g_invalid_pair)\n__CPROVER_loop_invariant(!use_pu)",
+    9: use_pu_loop("num_core + core_offset"),
     10: "__CPROVER_assigns(num_core, num_thread, num_cores_socket, num_pus_cores, pu_indexes, OUT_FRAME, PI_FRAME, ERR_FRAME)\n"
         "__CPROVER_loop_invariant(n < num_sockets && num_core <= NCORES && %s && %s && %s && %s && %s)" % (SZ3, NCS_AT, PIB, E_INV, C_INV),
     11: "__CPROVER_assigns(num_pu, num_thread, num_pus_cores, pu_indexes, OUT_FRAME, PI_FRAME, ERR_FRAME)\n"
@@ -265,7 +272,7 @@ NUMA_LOOPS_WORKERS = {
        "__CPROVER_loop_invariant(%s && %s && VV_WF(num_pus_cores) && "
        "%s && num_thread_socket < num_threads_socket.c_val && num_thread <= num_threads_socket.scan_prefix)" % (
            NTS_TOT, NPC1, SCAN_AT(NTS, "n")),
-    9: "__CPROVER_assigns(pu_index, use_pu, g_invalid_pair)\n__CPROVER_loop_invariant(!use_pu)",
+    9: use_pu_loop("num_core + core_offset"),
     10: "__CPROVER_assigns(num_core, num_thread, num_cores_socket, num_pus_cores, pu_indexes, OUT_FRAME, PI_FRAME, ERR_FRAME)\n"
         "__CPROVER_loop_invariant(%s && %s)" % (NUMA_W_COMMON, NUMA_W_OUTER),
     11: "__CPROVER_assigns(num_pu, num_thread, num_pus_cores, pu_indexes, OUT_FRAME, PI_FRAME, ERR_FRAME)\n"
@@ -288,7 +295,7 @@ NUMA_LOOPS_PAIR = {
        "__CPROVER_loop_invariant(%s)" % PIC,
     8: "__CPROVER_assigns(num_core, num_thread_socket, num_threads_socket, num_cores_socket, next_pu_index, num_pus_cores, pu_indexes, g_invalid_pair)\n"
        "__CPROVER_loop_invariant(%s)" % PIC,
-    9: "__CPROVER_assigns(pu_index, use_pu, g_invalid_pair)\n__CPROVER_loop_invariant(!use_pu)",
+    9: use_pu_loop("num_core + core_offset"),
     10: "__CPROVER_assigns(num_core, num_thread, num_cores_socket, num_pus_cores, pu_indexes, OUT_FRAME, PI_FRAME, ERR_FRAME)\n"
         "__CPROVER_loop_invariant(!vx_exc && %s && %s)" % (KP, PIC),
     11: "__CPROVER_assigns(num_pu, num_thread, num_pus_cores, pu_indexes, OUT_FRAME, PI_FRAME, ERR_FRAME)\n"
